@@ -271,7 +271,7 @@ class Run(Contract):
         t = b.choice('timeout', ['default', 'some'])
         return dict(command=b.str('command', 's'), timeout=b.const(-1) if t == 'default' else b.real('timeout'),
                     withexitstatus=b.const(b.choice('withexitstatus', [False, True])), events=events,
-                    extra_args=b.none(), logfile=b.none(), cwd=b.none(), env=b.none())
+                    extra_args=b.none(), logfile=b.any('logfile'), cwd=b.any('cwd'), env=b.any('env'))
 
     def outcomes(self, v):
         return [Ret(T.Any), Raises('TypeError')]
@@ -283,7 +283,12 @@ class Run(Contract):
         if getattr(v, 'concrete', False):
             return []
         g = v.g
-        out = [('C12:one-child', eq(g.get('spawned', 0), 1))]
+        out = [('C12:one-child', eq(g.get('spawned', 0), 1)),
+               # ... started exactly as asked, whichever way the timeout was given
+               ('C12:child-started-with-the-given-command', same(g.get('spawn.command'), v.old.command)),
+               ('C12:child-started-in-the-given-directory', same(g.get('spawn.cwd'), v.old.cwd)),
+               ('C12:child-started-with-the-given-environment', same(g.get('spawn.env'), v.old.env)),
+               ('C12:child-logs-to-the-given-file', same(g.get('spawn.logfile'), v.old.logfile))]
         if v.raised is not None:
             return out + [('C12:typeerror-only-for-an-unusable-response', True)]
         res = v.result
